@@ -108,6 +108,9 @@ impl Property for C07 {
     fn hang_is_violation(&self) -> bool {
         true
     }
+    fn alloc_failure_is_violation(&self) -> bool {
+        true
+    }
     fn strategy(&self, _tier: Tier) -> BoxedStrategy<Abs> {
         let base = prop_oneof![
             10 => abs_lzma_file(30, 300, 60_000).prop_map(AbsBase::Lzma),
